@@ -139,7 +139,7 @@ fn arity(kind: u8) -> usize {
 /// indices, same payload, and exactly the written bits are consumed.
 fn framing_roundtrip(kind: u8) {
     let index: usize = kani::any();
-    kani::assume(index >= 1 && index <= 255);
+    kani::assume(index >= 1 && index <= 15);
     let li: usize = kani::any();
     let ri: usize = kani::any();
     kani::assume(li < index && ri < index);
@@ -188,7 +188,7 @@ fn framing_roundtrip(kind: u8) {
         _ => false,
     };
     assert!(ok, "decoded node differs from the encoded one");
-    kani::cover!(index - li >= 128, "two-level natural for a back reference");
+    kani::cover!(index - li >= 8, "three-level natural for a back reference");
     std::mem::forget(node);
 }
 
